@@ -228,6 +228,45 @@ def g_range_after_array(rng):
     run = ["%s:%d" % (k, x + d * j) for j in range(rng.randint(5, 7))]
     return ["a:%d:%d" % (ord(k), len(arr))] + arr + run
 
+def g_mixed(rng):
+    """arrays among other values (C10_roundtrip_any_partial): plain arrays, five or more equal arrays in a row
+    (printed "Nx[...]", also "Nx[]"), and a run directly after an array whose last element is the run's
+    first value / another value of the run's type / a value of another type / missing (empty array)"""
+    out = []
+    for _ in range(rng.randint(1, 4)):
+        q = rng.random()
+        if q < 0.3:
+            a = g_array(rng) if rng.random() < 0.8 else ["a:32:0"]
+            out += a * rng.choice([1, 2, 4, 5, 5, 6, 7])
+        elif q < 0.75:
+            k = rng.choice("ihc")
+            lo, hi = (48, 100) if k == "c" else (-60, 60)
+            b = rng.randint(lo, hi)
+            d = rng.choice([1, -1, 1, 2, 0])
+            run = ["%s:%d" % (k, b + j * d) for j in range(rng.choice([4, 5, 6, 7]))]
+            r = rng.random()
+            if r < 0.35:
+                last = ["%s:%d" % (k, b)]                       # equals the run's first value
+            elif r < 0.6:
+                last = ["%s:%d" % (k, b - d if d else b + 1)]   # same type, another value
+            elif r < 0.8:
+                k2 = rng.choice([x for x in "ihcT" if x != k])
+                last = [g_scalar(rng, k2)]
+            else:
+                last = []
+            pre = []
+            if last and rng.random() < 0.6:
+                k0 = last[0][0]
+                if k0 in "ihc":
+                    pre = g_run(rng, k0, rng.choice([1, 2, 5, 6]))
+                    pre = [v for v in pre if v[0] == k0]
+            arr = pre + last
+            hdr = ["a:%d:%d" % (ord(arr[-1][0]) if arr else 32, len(arr))]
+            out += hdr + arr + run
+        else:
+            out.append(g_scalar(rng, rng.choice("ihcTNsf")))
+    return [v for v in out if "2e2e2e" not in v]
+
 def gen_struct(rng, tier, dist, n):
     """lists with runs around the compression threshold, arrays, time tags, whole messages"""
     out = []
@@ -244,6 +283,8 @@ def gen_struct(rng, tier, dist, n):
             vals = g_run_at_end(rng); parts = 0; compress = 1; bump("run-at-end")
         elif rng.random() < 0.01:
             vals = g_range_after_array(rng); parts = 0; compress = 1; bump("run-after-array-with-run")
+        elif rng.random() < 0.08:
+            vals = g_mixed(rng); parts = rng.choice([0, 0, 1]); compress = rng.choice([1, 1, 1, 0]); bump("arrays-among-values")
         for _p in range(parts):
             q = rng.random()
             if q < 0.35:
